@@ -85,7 +85,7 @@ HASHABLE_FLAVOURS = ["dc_frozen", "namedtuple"]
 WRAPPERS = ["newtype", "alias", "stralias", "final", "classvar"]
 
 PRELUDE = ("import collections, collections.abc, dataclasses, datetime, decimal, enum, fractions, pathlib, re, "
-           "typing, uuid\nfrom typing import *\n")
+           "typing, typing_extensions, uuid\nfrom typing import *\n")
 
 _counter = itertools.count()
 
@@ -331,10 +331,11 @@ class Materialised:
             if f.get("final") and fl not in ("typeddict", "typeddict_partial", "namedtuple"):
                 e = f"typing.Final[{e}]"
             # the markers say what the field is for users of the (child) class; the declaring class may already imply it
+            tmod = "typing_extensions" if spec.get("te") else "typing"
             if f.get("notreq") and fl == "typeddict":
-                e = f"typing.NotRequired[{e}]"
+                e = f"{tmod}.NotRequired[{e}]"
             if f.get("req") and fl == "typeddict_partial":
-                e = f"typing.Required[{e}]"
+                e = f"{tmod}.Required[{e}]"
             if has_kind(f["t"], "ref") and not future and f.get("quote_whole") and not has_kind(f["t"], "literal"):
                 e = repr(e.replace("'", ""))
             return e
@@ -369,7 +370,8 @@ class Materialised:
                 lines.append("    pass")
         elif fl in ("typeddict", "typeddict_partial"):
             total = "" if fl == "typeddict" else ", total=False"
-            lines.append(f"class {name}({base or 'typing.TypedDict'}{total}):")
+            # (`te`: declared through the typing_extensions back-port, which below Python 3.13 is an implementation of its own)
+            lines.append(f"class {name}({base or ('typing_extensions.TypedDict' if spec.get('te') else 'typing.TypedDict')}{total}):")
             for f in fields:
                 lines.append(f"    {f['n']}: {ann(f)}")
             if not fields:
@@ -1282,6 +1284,8 @@ def class_specs(draw, names, *, max_depth, hashable, open_classes, kw):
     spec = {"k": "class", "name": name, "mod": mod, "flavour": fl, "future": future, "fields": fields}
     if fl == "dataclass" and draw(st.integers(0, 5)) == 0:
         spec["classvars"] = ["cv"]
+    if fl.startswith("typeddict") and draw(st.integers(0, 3)) == 0:
+        spec["te"] = True
     if draw(st.integers(0, 5)) == 0:
         spec["nest"] = True     # declared in the body of another class: referred to as `<name>_Ns.<name>`, qualified name with a dot
     if fl != "namedtuple" and fields and draw(st.integers(0, 3)) == 0:
